@@ -473,6 +473,7 @@ def check(ctx):
 
     obs.append(ctx.shared('c03', 'C03.9', 'C02.10', 'conservation is shown per entry point under run-to-completion; that needs the handlers other devices call back into '
                           'during a hand-over to move no part (a synchronous hand-over from a notification re-enters the sender while its slot is still full: parts are duplicated or dropped)'))
+    obs.append(dv.falsy_default_obligation(ctx, 'C02.12', ['Source', 'PartGenerator', 'Part', 'Batch'], 'the part budget of a source is the number it was given'))
     return obs
 
 
